@@ -194,6 +194,22 @@ def run(ctx):
                 want = f"ok {hx(sd)} {rkf} {l0} {l1} {l2}"
                 if ru != want:
                     ctx.violation("GetKey.unpack(pack(x)) != x", {"sd_len": n, "rk": str(rk)}, ru[:160], want[:160])
+                # a request object is a plain mutable record: edited after construction (a loop walking key ids, another SD, another
+                # root key) and after decoding, it encodes the arguments it NOW holds
+                if n % 3 == 0:
+                    for origin in ("constructed", "decoded"):
+                        try:
+                            q = g.GetKey(sd, rk, l0, l1, l2) if origin == "constructed" else g.GetKey.unpack(spec)
+                            q.pack()
+                            sd2, rk2 = sd + b"\x07", (None if rk else uuid.UUID(int=7))
+                            q.target_sd, q.root_key_id, q.l0_key_id, q.l1_key_id, q.l2_key_id = sd2, rk2, 5, 6, 7
+                            got2 = bytes(q.pack())
+                        except Exception as exc:  # noqa
+                            got2 = ("raised " + canon_exc(exc)).encode()
+                        ctx.count("getkey_edited:" + origin)
+                        if got2 != ndr64_getkey_request(sd2, rk2, 5, 6, 7):
+                            ctx.violation("an edited GetKey request does not encode the arguments it now holds", {"sd_len": n, "origin": origin, "scenario": "edited_request"},
+                                          hx(got2)[:160], hx(ndr64_getkey_request(sd2, rk2, 5, 6, 7))[:160])
 
     # --- captured Windows structures -----------------------------------------------------------
     data = "/repo/tests/data"
